@@ -354,9 +354,8 @@ def gen_func_cases(rng, tier):
     add("outside", [frame(file="w0/missing.lat")], files={})
     add("outside", [frame(file="w0/a b.lat")])
     # ---- names: dots, long names, hidden files, the file already in place, pre-existing destination
-    for nm in ("w0/.hidden", "w0/a.b.c.lat", "w0/noext", "w0/" + "x" * 30 + ".lat", "w0/deep/er/t.lat", "w0/a.", "w0/..a.lat", "abs"):
-        f = nm if nm != "abs" else "/tmp/infv_c14_abs_%d.lat" % os.getpid()
-        add("names", [frame(f, 0), frame("w0/z.lat", 1, True), frame(f, 2)])
+    for nm in ("w0/.hidden", "w0/a.b.c.lat", "w0/noext", "w0/" + "x" * 30 + ".lat", "w0/deep/er/t.lat", "w0/a.", "w0/..a.lat"):
+        add("names", [frame(nm, 0), frame("w0/z.lat", 1, True), frame(nm, 2)])
     add("names", [frame("load/3/accepted/a.lat", 0), frame("w0/b.lat", 1)])          # src == dest
     add("names", [frame("w0/a.lat", 0)], files={"w0/a.lat": "new", "load/3/accepted/a.lat": "old", "load/3/order.txt": "stale"})
     add("names", [frame("load/3/accepted/a.lat", 0), frame("w1/a.lat", 1)])          # collision with a file in place
@@ -462,14 +461,16 @@ def del_case(arg):
             def attach(self, state):
                 super().attach(state)
                 inner = state.treat_output
-                pst = state.pstore
-                orig_out = pst.output
+                pst = state.pstore      # a class attribute: shared by the segments of one process
+                if not getattr(pst, "_c14_logged", False):
+                    orig_out = pst.output
 
-                def logged_output(step, data):
-                    res = orig_out(step, data)
-                    events.append(("S", int(res.path_number)))
-                    return res
-                pst.output = logged_output
+                    def logged_output(step, data):
+                        res = orig_out(step, data)
+                        events.append(("S", int(res.path_number)))
+                        return res
+                    pst.output = logged_output
+                    pst._c14_logged = True
 
                 def treat(md):
                     if aux:
@@ -722,7 +723,7 @@ def gen_del_cases(rng, tier):
     seeds = [1, 2] if quick else [1, 2, 3, 4, 5, 6]
     for n_intf in (2, 3, 4):
         for W in (1, 2, 3):
-            if W > n_intf:
+            if W >= n_intf:
                 continue
             for dold, dall in flags:
                 for seed in (seeds if dold else seeds[:1]):
